@@ -56,6 +56,43 @@ theorem other_password_does_not_verify (c : CipherId) (alg : Nat) (pw pw' salt :
     verify c alg salt seed (encrypt c (derive alg pw salt seed) n pt) pw' = false := by
   unfold verify; rw [other_password_does_not_unlock c alg pw pw' salt seed n pt h]; rfl
 
+/-- the access point of a folder sealed under `pw` -/
+def folderAP (c : CipherId) (alg : Nat) (pw salt : Bytes) (seed : Option Bytes) (n : Nat) (pt : Bytes) : AccessPoint :=
+  { cipher := c, alg := alg, salt := salt, seed := seed, sealedMeta := encrypt c (derive alg pw salt seed) n pt }
+
+/-- C10/3c.  An unlock with another password is refused AND leaves the folder locked: nothing
+can be written afterwards (a row written then would be sealed under a key that is not the
+folder's).  With its own password the folder unlocks and holds exactly the folder key. -/
+theorem refused_unlock_leaves_folder_locked (c : CipherId) (alg : Nat) (pw pw' salt : Bytes)
+    (seed : Option Bytes) (n : Nat) (pt : Bytes) (h : pw' ++ seed.getD [] ≠ pw ++ seed.getD []) :
+    ((folderAP c alg pw salt seed n pt).unlock pw').2 = false ∧
+    ((folderAP c alg pw salt seed n pt).unlock pw').1.canWrite = false := by
+  unfold AccessPoint.unlock folderAP
+  simp only
+  rw [other_password_does_not_unlock c alg pw pw' salt seed n pt h]
+  exact ⟨rfl, rfl⟩
+
+theorem own_password_unlocks_and_installs_the_folder_key (c : CipherId) (alg : Nat) (pw salt : Bytes)
+    (seed : Option Bytes) (n : Nat) (pt : Bytes) :
+    ((folderAP c alg pw salt seed n pt).unlock pw).2 = true ∧
+    ((folderAP c alg pw salt seed n pt).unlock pw).1.installed = some (derive alg pw salt seed) := by
+  unfold AccessPoint.unlock folderAP
+  simp only
+  rw [decrypt_encrypt]
+  exact ⟨rfl, rfl⟩
+
+/-- Witness of the repaired defect: before the repair a refused unlock left the foreign key
+installed and the folder writable. -/
+theorem refused_unlock_left_foreign_key_installed_before_the_repair (c : CipherId) (alg : Nat)
+    (pw pw' salt : Bytes) (seed : Option Bytes) (n : Nat) (pt : Bytes)
+    (h : pw' ++ seed.getD [] ≠ pw ++ seed.getD []) :
+    ((folderAP c alg pw salt seed n pt).unlockOld pw').2 = false ∧
+    ((folderAP c alg pw salt seed n pt).unlockOld pw').1.canWrite = true := by
+  unfold AccessPoint.unlockOld folderAP
+  simp only
+  rw [other_password_does_not_unlock c alg pw pw' salt seed n pt h]
+  exact ⟨rfl, rfl⟩
+
 /-- C10/4.  Across everything a key ever encrypts no nonce is used twice: after any sequence
 of encryptions all packs made carry pairwise different nonces. -/
 def sealAll (c : CipherId) (k : Key) : KeyUse → List Bytes → KeyUse
